@@ -41,6 +41,27 @@ class SList:
         return f"SList({self.tag}, len={self.length})"
 
 
+class IndexedItem:
+    """An opaque list element that remembers which entry of the original list it is."""
+    def __init__(self, idx):
+        self.idx = idx
+
+    def __repr__(self):
+        return f"item[{self.idx}]"
+
+
+def cond_value(c, a, b):
+    """if c then a else b for list elements (numbers and indexed items)."""
+    if isinstance(a, IndexedItem) and isinstance(b, IndexedItem):
+        return IndexedItem(z3.If(c, a.idx, b.idx))
+    if is_num(a) and is_num(b):
+        return SNum(z3.If(c, real_term(a), real_term(b)), False)
+    if a is b:
+        return a
+    from .interp import Unsupported
+    raise Unsupported("G-mode: conditional list element of mixed kinds")
+
+
 class ConsList(SList):
     """A few known values in front of a symbolic-length list (the *args of f(a, *rest))."""
     def __init__(self, prefix, rest):
@@ -55,6 +76,19 @@ class ConsList(SList):
             from .interp import Unsupported
             raise Unsupported("G-mode: element of a list with object prefix at a symbolic index")
         SList.__init__(self, z3.simplify(rest.length + n), elem, f"cons({n},{rest.tag})")
+        self.all_expr = getattr(rest, "all_expr", False)
+
+
+class SnocList(SList):
+    """A symbolic-length list followed by a few known values (the *args of f(*rest, a))."""
+    def __init__(self, rest, suffix):
+        self.rest = rest
+        self.suffix = list(suffix)
+
+        def elem(u):
+            from .interp import Unsupported
+            raise Unsupported("G-mode: element of a list with object suffix at a symbolic index")
+        SList.__init__(self, z3.simplify(rest.length + len(self.suffix)), elem, f"snoc({rest.tag},{len(self.suffix)})")
         self.all_expr = getattr(rest, "all_expr", False)
 
 
